@@ -4,7 +4,7 @@
    sumor to native OCaml types; andb/orb inlined).  N, positive, nat, Z stay inductive. *)
 Require Extraction.
 Require Import ExtrOcamlBasic.
-From Via Require Import M_Char M_Encode M_HashMap M_Router M_Auth M_Parse M_Receive M_Server.
+From Via Require Import M_Char M_Encode M_HashMap M_Router M_Auth M_Parse M_Receive M_Server M_Client.
 Set Extraction Optimize.
 Extraction "model.ml"
   M_Char.isupper M_Char.isalpha M_Char.isdigit M_Char.isxdigit M_Char.isblank M_Char.isspace
@@ -22,4 +22,5 @@ Extraction "model.ml"
   M_Auth.b64_encode M_Auth.b64_decode M_Auth.authenticate_route
   M_Parse.rl_st_index M_Parse.sl_st_index M_Parse.fl_st_index M_Parse.ck_st_index
   M_Receive.feed M_Receive.rv_init M_Receive.cfeed M_Receive.cv_init M_Receive.receive M_Receive.creceive M_Receive.retained M_Receive.read_loop
-  M_Server.run M_Server.w_init M_Server.pending_ops.
+  M_Server.run M_Server.w_init M_Server.pending_ops
+  M_Client.k_run M_Client.cl_init.
